@@ -47,6 +47,11 @@ def gen_def(rng):
         rep = None
         if rng.random() < 0.25:
             rep = {"count": rng.choice([1, 2, 3]), "stride": rng.choice([1, 2, 4])}
+        elif k == n - 1 and cfg["command_address_type"] != "u8" and rng.random() < 0.5:
+            # a repeated command whose far instances are the widest thing in the whole device: its LAST instance is
+            # dispatched below, at the declared address (seed C09-9 left repeated commands out of the sizing of the
+            # type the address arithmetic is done in)
+            rep = {"count": rng.choice([2, 3, 4]), "stride": rng.choice([100, 300, 9000] + ([70000] if cfg["command_address_type"] in ("u32", "i64") else []))}
         if si is None and so is None and rng.random() < 0.4:
             c = adef.mk_command(name, 10 * k, basic=True)
         else:
